@@ -203,6 +203,11 @@ def signature(trace, verdict):
            'exc': e.get('exc', 'none')}
     if e['op'] == 'call':
         sig['kind'] = trace['cfg']['kind'][e['a'] - 1]
+        # which counter this call moved (hit / load / miss), and whether the archive object was replaced earlier on
+        prev = (trace['events'][idx - 2] if idx >= 2 else trace['init'])['info'][i - 1]
+        now = e['info'][i - 1]
+        sig['counted'] = 'hit' if now[0] > prev[0] else 'load' if now[2] > prev[2] else 'miss' if now[1] > prev[1] else 'none'
+        sig['archive_replaced_before'] = any(x['op'] in ('set_archive', 'open') for x in trace['events'][:idx - 1])
     return sig
 
 
@@ -678,6 +683,11 @@ def check_C07(tier):
                                       OPS={'call', 'set_archive'}, NARCH=2))
     with ThreadPoolExecutor(max_workers=common.NCPU) as ex:
         list(ex.map(lambda c: run.generate(c, 150 if t else 30, 30), foc))
+    # the reproducer of the known finding no-cache-drops-entries-loaded-from-a-replaced-archive, on every run
+    for module in ('std', 'safe'):
+        for backend in ('dictarch', 'file'):
+            run.jobs.append((py_cfg(module, 'no', 'default', backend, ('str', True, False)),
+                             [{'a': 3, 'op': 'call'}, {'op': 'load'}, {'op': 'set_archive', 'x': 2}, {'a': 3, 'op': 'call'}], None))
     # fault injection: the archive write of an eviction / purge fails once; the victim must not be lost
     rng = run.rng
     for _ in range(1200 if t else 200):
